@@ -663,6 +663,18 @@ def r5c_compat_on_cleared_worker(ctx: Context, rule: str = "C10.R5") -> None:
         ok = bool(dc) and bool(cs) and norm(cs[0].func.value) == norm(dc[0].targets[0])
         ctx.check(ok, rule, f"{rel}::TaskOptimizerVariables|compatible (worker, strategy) pairs on deepcopy(worker)", loc(cs[0]) if cs else loc(init),
                   "cleared worker", "compatibility is computed on the occupied worker (tasks that fit later are excluded) or not at all")
+        # ... and exactly that result decides for which (worker, strategy) pairs variables exist
+        if cs:
+            asg = parent(cs[0])
+            rv = asg.targets[0].id if isinstance(asg, ast.Assign) and isinstance(asg.targets[0], ast.Name) else None
+            maps = [a for a in ast.walk(init) if isinstance(a, ast.Assign) and isinstance(a.targets[0], ast.Subscript)
+                    and isinstance(a.targets[0].value, ast.Name) and "worker" in a.targets[0].value.id and "strateg" in a.targets[0].value.id]
+            oku = rv is not None and bool(maps) and all(isinstance(a.value, ast.Name) and a.value.id == rv for a in maps)
+            ctx.check(oku, rule, f"{rel}::TaskOptimizerVariables|variables only for the compatible strategies of each worker", loc(maps[0]) if maps else loc(init),
+                      f"per-worker strategy table filled from `{rv}`",
+                      f"the per-worker strategy table is filled with `{norm(maps[0].value)[:60] if maps else '?'}`, not with the strategies found compatible "
+                      "with that worker: placement variables exist for strategies the worker cannot run (e.g. a resource type it does not own, "
+                      "which no capacity constraint covers)")
 
 
 
@@ -806,6 +818,80 @@ def r5b_capacity_grid(ctx: Context, rule: str = "C10.R5b") -> None:
                   "last planned instant(s) carry no capacity constraint, so any number of tasks can be stacked there")
 
 
+BATCH_AGGREGATES = {"release_time": ("max", "a batch starts no earlier than its latest-released member"),
+                    "deadline": ("min", "a batch must finish by the earliest deadline of its members"),
+                    "remaining_time": ("max", "a batch holds its resources as long as its slowest member")}
+
+
+def batch_aggregates(ctx: Context, rule: str = "C10.R4b") -> None:
+    ctx.rule(rule, "the virtual BatchTask of the ILP planner aggregates its members conservatively: release_time = max, "
+                   "deadline = min, remaining_time = max over `self._tasks` (the model's start lower bound and deadline constraint "
+                   "read these accessors)")
+    n = 0
+    for rel in ("schedulers/ilp_scheduler.py", "schedulers/tetrisched_cplex_scheduler.py"):
+        try:
+            cls = ctx.repo.mod(rel).cls("BatchTask")
+        except AnalysisError:
+            continue
+        for name, (fn_name, why) in BATCH_AGGREGATES.items():
+            m = methods(cls).get(name)
+            if m is None:
+                continue
+            n += 1
+            rets = [r for r in ast.walk(m) if isinstance(r, ast.Return) and r.value is not None]
+            ok = len(rets) == 1 and isinstance(rets[0].value, ast.Call) and call_name(rets[0].value) == fn_name and len(rets[0].value.args) == 1 \
+                and isinstance(rets[0].value.args[0], (ast.GeneratorExp, ast.ListComp)) \
+                and norm(rets[0].value.args[0].generators[0].iter) in ("self._tasks", "self.tasks") \
+                and norm(rets[0].value.args[0].elt) == f"{norm(rets[0].value.args[0].generators[0].target)}.{name}"
+            ctx.check(ok, rule, f"{rel}::BatchTask.{name}|{fn_name} over the members", loc(m), f"{fn_name}(t.{name} for t in members)",
+                      f"BatchTask.{name} is `{norm(rets[0].value)[:70] if rets else '?'}`: {why}")
+    ctx.floor(rule, "BatchTask aggregate accessors", n, 3)
+
+
+def r7_config_not_rewritten(ctx: Context, rule: str = "C10.R7") -> None:
+    ctx.rule(rule, "a policy's configuration (attributes set in __init__ straight from a constructor parameter) is never assigned "
+                   "by schedule() or its helpers: what one invocation derives (e.g. a planning horizon) must not leak into the next")
+    n = 0
+    for m in ctx.repo.program_modules():
+        if not m.rel.startswith("schedulers/"):
+            continue
+        for cls in [c for c in ast.walk(m.tree) if isinstance(c, ast.ClassDef)]:
+            ms = methods(cls)
+            init = ms.get("__init__")
+            if init is None or "schedule" not in ms:
+                continue
+            params = {a.arg for a in init.args.args + init.args.kwonlyargs}
+            cfg = {a.targets[0].attr for a in ast.walk(init) if isinstance(a, ast.Assign) and is_self_attr(a.targets[0])
+                   and isinstance(a.value, ast.Name) and a.value.id in params}
+            n += len(cfg)
+            for name, fn in ms.items():
+                if name == "__init__":
+                    continue
+                for a in ast.walk(fn):
+                    if isinstance(a, (ast.Assign, ast.AugAssign)):
+                        for t in (a.targets if isinstance(a, ast.Assign) else [a.target]):
+                            if is_self_attr(t) and t.attr in cfg:
+                                ctx.violation(rule, f"{m.rel}::{cls.name}.{name}|`{norm(a)[:50]}` rewrites configuration", loc(a),
+                                              f"`{norm(a)[:70]}` overwrites the constructor-given `{t.attr}` during an invocation: the value "
+                                              "derived for this invocation sticks for all later ones (stale horizon / bound), so later plans "
+                                              "are made on the wrong premise")
+    ctx.floor(rule, "configuration attributes of the policies", n, 10)
+    ctx.ok(rule, "policies|configuration attributes assigned only in __init__", "schedulers/", f"{n} attributes")
+
+
+def r8_filter_visits_every_graph(ctx: Context, rule: str = "C10.R8") -> None:
+    ctx.rule(rule, "Workload.filter (through which the planners collect the RUNNING / SCHEDULED tasks they must account for) applies "
+                   "the predicate to every task graph: no graph is skipped")
+    from ..anchors import WORKLOAD
+    fn = method(ctx.repo.mod(WORKLOAD).cls("Workload"), "filter")
+    loops = [n for n in fn.body if isinstance(n, ast.For)]
+    ok = len(loops) == 1 and "_task_graphs" in norm(loops[0].iter) and not any(isinstance(x, (ast.If, ast.Continue, ast.Break, ast.Return)) for x in ast.walk(loops[0]))
+    ok = ok and any(call_name(c) == "filter" and c.args and norm(c.args[0]) == fn.args.args[1].arg for c in calls_in(loops[0]))
+    ctx.check(ok, rule, "Workload.filter|every task graph is filtered with the given predicate", loc(fn), "for tg in graphs: extend(tg.filter(f))",
+              "Workload.filter skips some task graphs or changes the predicate: running tasks of the skipped graphs vanish from the planners' "
+              "view (no capacity held for them, no start-after-parent constraint for their children)")
+
+
 def r6_indicator_pairs(ctx: Context, rule: str = "C10.R6", gap_rule: Optional[str] = None) -> None:
     ctx.rule(rule, "indicator pairs (b=1 => e >= a, b=0 => e <= c) over one linear form are complementary: c = a - 1 (no overlap of the "
                    "ranges: an overlap leaves b free and capacity can be evaded; a gap is over-tight)")
@@ -862,9 +948,14 @@ def _complementary(s0: str, r0: lin.Lin, s1: str, r1: lin.Lin) -> str:
 
 def run(ctx: Context) -> None:
     ctx.isolate(r1_side_effect_free)
+    from . import c04
+    ctx.isolate(c04.r4_r5_copies, rule4="C10.R1b", rule5="C10.R1c")
     ctx.isolate(r2_one_decision)
     ctx.isolate(r3_well_formed)
     ctx.isolate(r4_time_lower_bounds)
     ctx.isolate(r5_capacity)
     ctx.isolate(r5b_capacity_grid)
+    ctx.isolate(batch_aggregates)
+    ctx.isolate(r7_config_not_rewritten)
+    ctx.isolate(r8_filter_visits_every_graph)
     ctx.isolate(r6_indicator_pairs)
